@@ -226,7 +226,7 @@ Lemma headings_msg : forall k m,
   headings k (msg_blocks m) = if Nat.eqb 4 k then [m_name m] else [].
 Proof.
   intros k m. unfold msg_blocks. rewrite !headings_app, headings_desc.
-  assert (Hs : headings k (if m_static m then [] else [Para (dec_hex_line "Message ID" (m_id m))]) = [])
+  assert (Hs : headings k (if m_static m then [] else [Para (dec_hex_line "Message ID" (m_id m)); LF]) = [])
     by now destruct (m_static m).
   assert (Ht : headings k (match m_sigs m with [] => [] | _ :: _ => [mk_table sig_header (rows_sigs 0 (m_sigs m))] end) = [])
     by now destruct (m_sigs m).
@@ -384,7 +384,7 @@ Lemma msg_tables : forall m,
   match m_sigs m with [] => [] | _ => [mk_table sig_header (rows_sigs 0 (m_sigs m))] end.
 Proof.
   intro m. unfold msg_blocks. rewrite !tables_app, tables_desc.
-  assert (Hs : tables (if m_static m then [] else [Para (dec_hex_line "Message ID" (m_id m))]) = [])
+  assert (Hs : tables (if m_static m then [] else [Para (dec_hex_line "Message ID" (m_id m)); LF]) = [])
     by now destruct (m_static m).
   rewrite Hs. cbn. now destruct (m_sigs m).
 Qed.
@@ -584,3 +584,130 @@ Lemma ex_net_nontrivial :
   List.length (types_listed ex_net) = 2%nat /\ List.length (enums_listed ex_net) = 1%nat
   /\ List.length (rows_sigs 0 (m_sigs (hd (Build_msg "" "" false 0 0 0 "" 0 [] []) (msgs_of_net ex_net)))) = 14%nat.
 Proof. vm_compute. repeat split. Qed.
+
+(* ------------------------------------------------------------------ CommonMark reading *)
+Fixpoint endp (p : bool) (bs : list block) : bool :=
+  match bs with
+  | [] => p
+  | Para _ :: r => endp true r
+  | _ :: r => endp false r
+  end.
+
+Lemma sf_app : forall l1 l2 p, sf p (l1 ++ l2) = andb (sf p l1) (sf (endp p l1) l2).
+Proof.
+  induction l1 as [|x r IH]; intros l2 p; [reflexivity|].
+  destruct x; cbn [app sf endp]; rewrite ?IH; try reflexivity.
+  now rewrite andb_assoc.
+Qed.
+Lemma endp_app : forall l1 l2 p, endp p (l1 ++ l2) = endp (endp p l1) l2.
+Proof. induction l1 as [|x r IH]; intros l2 p; [reflexivity|]. destruct x; cbn [app endp]; apply IH. Qed.
+
+(* a stretch that is entered and left outside a paragraph *)
+Definition pres (l : list block) : Prop := sf false l = true /\ endp false l = false.
+
+Lemma pres_nil : pres [].
+Proof. split; reflexivity. Qed.
+Lemma pres_app : forall l1 l2, pres l1 -> pres l2 -> pres (l1 ++ l2).
+Proof.
+  intros l1 l2 [S1 E1] [S2 E2]. split.
+  - now rewrite sf_app, S1, E1, S2.
+  - now rewrite endp_app, E1, E2.
+Qed.
+Lemma pres_flat_map : forall {A} (f : A -> list block) l, (forall x, pres (f x)) -> pres (flat_map f l).
+Proof.
+  induction l as [|x r IH]; intro Hf; [apply pres_nil|]. cbn [flat_map]. apply pres_app; auto.
+Qed.
+Lemma pres_desc : forall d, pres (desc_blocks d).
+Proof. intro d. unfold desc_blocks. destruct (String.eqb d ""); split; reflexivity. Qed.
+
+Lemma pres_msg : forall m, pres (msg_blocks m).
+Proof.
+  intro m. unfold msg_blocks.
+  repeat apply pres_app; try apply pres_desc; try (split; reflexivity).
+  - destruct (m_static m); split; reflexivity.
+  - destruct (m_sigs m); split; reflexivity.
+Qed.
+Lemma pres_nif : forall x, pres (nif_blocks x).
+Proof.
+  intro x. unfold nif_blocks.
+  repeat apply pres_app; try apply pres_desc; try (split; reflexivity).
+  apply pres_flat_map, pres_msg.
+Qed.
+Lemma pres_bus : forall b, pres (bus_blocks b).
+Proof.
+  intro b. unfold bus_blocks.
+  repeat apply pres_app; try apply pres_desc; try (split; reflexivity).
+  apply pres_flat_map, pres_nif.
+Qed.
+Lemma pres_enum : forall e, pres (enum_blocks e).
+Proof.
+  intro e. unfold enum_blocks.
+  repeat apply pres_app; try apply pres_desc; split; reflexivity.
+Qed.
+Lemma pres_appendix : forall n, pres (appendix_blocks n).
+Proof.
+  intro n. unfold appendix_blocks. apply pres_app; [split; reflexivity|apply pres_flat_map, pres_enum].
+Qed.
+
+Definition nonRule (b : block) : Prop := match b with Rule => False | _ => True end.
+Lemma sf_no_rule : forall l p, Forall nonRule l -> sf p l = true.
+Proof.
+  induction l as [|x r IH]; intros p Hf; [reflexivity|]. inversion Hf as [|? ? Hx Hr]; subst.
+  destruct x; cbn [sf]; try contradiction; now apply IH.
+Qed.
+Lemma toc_nonRule : forall n, Forall nonRule (toc_blocks n).
+Proof.
+  intro n. unfold toc_blocks. apply Forall_forall. intros b Hin.
+  apply in_app_iff in Hin as [Hin|Hin].
+  - apply in_flat_map in Hin as [bs [_ Hin]]. destruct Hin as [<-|Hin]; [exact I|].
+    apply in_flat_map in Hin as [x [_ Hin]]. destruct Hin as [<-|Hin]; [exact I|].
+    apply in_map_iff in Hin as [m [<- _]]. exact I.
+  - cbn [In] in Hin. destruct Hin as [<-|[<-|[<-|[]]]]; exact I.
+Qed.
+Lemma pres_toc : forall n, pres (toc_blocks n).
+Proof.
+  intro n. split; [apply sf_no_rule, toc_nonRule|].
+  unfold toc_blocks. rewrite endp_app. reflexivity.
+Qed.
+
+Lemma blocks_setext_free : forall n, setext_free (blocks n) = true.
+Proof.
+  intro n. unfold setext_free, blocks.
+  assert (P : pres (preamble_blocks n ++ toc_blocks n ++ flat_map bus_blocks (nt_buses n) ++ appendix_blocks n)).
+  { apply pres_app; [|apply pres_app; [|apply pres_app]].
+    - unfold preamble_blocks. apply pres_app; [split; reflexivity|apply pres_desc].
+    - apply pres_toc.
+    - apply pres_flat_map, pres_bus.
+    - apply pres_appendix. }
+  exact (proj1 P).
+Qed.
+
+Lemma sf_true_nonrule : forall x r, x <> Rule -> sf true (x :: r) = sf false (x :: r).
+Proof. intros x r Hx. destruct x; try reflexivity. contradiction. Qed.
+
+Lemma headings_cons : forall k x r, headings k (x :: r) = (headings k [x] ++ headings k r)%list.
+Proof. intros. change (x :: r) with ([x] ++ r)%list. apply headings_app. Qed.
+
+Lemma cm_headings_eq : forall k bs, setext_free bs = true -> cm_headings k bs = headings k bs.
+Proof.
+  unfold setext_free. intros k bs. induction bs as [|x r IH]; intro Hs; [reflexivity|].
+  rewrite headings_cons.
+  destruct x; cbn [sf] in Hs.
+  - cbn [cm_headings]. rewrite (IH Hs).
+    assert (E : headings k [H level text] = if Nat.eqb level k then [text] else [])
+      by (unfold headings; cbn [flat_map]; now rewrite app_nil_r).
+    rewrite E. destruct (Nat.eqb level k); reflexivity.
+  - destruct r as [|y r'].
+    + reflexivity.
+    + assert (Hy : y <> Rule) by (intro; subst y; cbn [sf] in Hs; discriminate).
+      rewrite sf_true_nonrule in Hs by assumption.
+      rewrite <- (IH Hs). destruct y; try reflexivity. contradiction.
+  - cbn [cm_headings]. now rewrite (IH Hs).
+  - apply andb_true_iff in Hs as [_ Hs]. cbn [cm_headings]. now rewrite (IH Hs).
+  - cbn [cm_headings]. now rewrite (IH Hs).
+  - cbn [cm_headings]. now rewrite (IH Hs).
+Qed.
+
+Lemma md_sections_commonmark_lemma : forall n k,
+  setext_free (blocks n) = true /\ cm_headings k (blocks n) = headings k (blocks n).
+Proof. intros n k. split; [apply blocks_setext_free|apply cm_headings_eq, blocks_setext_free]. Qed.
